@@ -2,6 +2,7 @@ package main
 
 import (
 	"encoding/json"
+	"go/types"
 	"os"
 	"path/filepath"
 	"regexp"
@@ -178,6 +179,26 @@ func armPaths(p *Program, fn *ssa.Function, start *ssa.BasicBlock, stop map[*ssa
 				if strings.HasPrefix(t, `errors.New(Field(`) && strings.HasSuffix(t, ".Body))") {
 					end = "return-plugin-error"
 				}
+			}
+		}
+		// a labels message is refused only as a repeat (the set was received before): any other
+		// refusal in that arm — of an empty set, say — changes which recipient lists encrypt
+		if arm == "labels" && end == "return-error" {
+			repeat := false
+			for _, a := range atoms {
+				if a.Kind == "cmp" && a.Op == "!=" && a.Y != nil && a.Y.Op == "Nil" && a.X != nil && a.X.V != nil {
+					if _, isSlice := a.X.V.Type().Underlying().(*types.Slice); isSlice {
+						repeat = true
+					}
+				}
+				if a.Kind == "bool" && a.Pol && a.X != nil && a.X.V != nil {
+					if _, isPhi := a.X.V.(*ssa.Phi); isPhi {
+						repeat = true // a "seen" flag carried by the loop
+					}
+				}
+			}
+			if !repeat {
+				seq = append([]string{"[not-a-repeat]"}, seq...)
 			}
 		}
 		key := strings.Join(seq, ",") + " -> " + end
